@@ -57,7 +57,7 @@ PROPS = {
     },
     "C06": {
         "level": "exploration",
-        "steps": [("hv", "C06", {}), ("py", "lsx", "run_c06"), ("py", "lsx", "run_c06_settings")],
+        "steps": [("hv", "C06", {}), ("py", "lsx", "run_c06"), ("py", "lsx", "run_c06_settings"), ("hv", "wasmdict", {"prop": "C06", "_tag": "C06wasmdict", "_scale": 0.5})],
         "rule": "exhaustive pass: every spelling of an independent expansion of dictionary.dict + affixes.json (read from the current tree, reconciled with the implementation's "
                 "word set) x 4 dialects, alone, plus Capitalised/UPPER forms of lower-case entries and sentence frames (sampled); dialect-tagged words under the other dialects; "
                 "non-words (random letter strings, edit-distance-1 mutants) must be flagged at their exact span; every suggestion must be a listed word of the active dialect; harper-ls sessions with user / file dictionary files on disk (LF, CRLF, no final newline, blank lines; novel words and "
